@@ -252,25 +252,25 @@ Theorem C12_nested_wide_arith : forall op k n ml mr x y,
 Proof. exact nested_wide_arith. Qed.
 Print Assumptions C12_nested_wide_arith.
 
-(* The same statement is FALSE for the other big-path operators, which read big() — a
-   negative number for a folded 64-bit constant with bit 63 set (finding F6m):
-   uint128(-uint64(5)) << 64 folds to 3 * 2^64, the circuit computes (2^64 - 5) * 2^64;
-   & ^ &^ with uint128(2^100 + 1) differ as well. *)
-Theorem C12_nested_wide_shift_refuted :
-  run_program KUint 128 f6m_const = Ok (3 * 2 ^ 64) /\
-  run_program KUint 128 f6m_runtime = Ok ((2 ^ 64 - 5) * 2 ^ 64).
-Proof. exact nested_wide_shift_refuted. Qed.
-Print Assumptions C12_nested_wide_shift_refuted.
+(* & | ^ &^ likewise (the big path reads its operands with ubig(): the non-negative number
+   their bits spell — repair of finding F6m; [inrange]: a small Int holds an int64 or a
+   value below 2^64). *)
+Theorem C12_nested_wide_bitops : forall op k n ml mr x y,
+  wide_bitop op = true -> 64 < n -> held x -> held y -> inrange x -> inrange y ->
+  0 < mbits x <= n -> 0 < mbits y <= n ->
+  exists c, evalConst op (CI (mkT k n ml) x) (CI (mkT k n mr) y) = Ok c /\
+    good c k n (snd (circuit_sem op k n (const_wires (CI (mkT k n ml) x)) (const_wires (CI (mkT k n mr) y)))).
+Proof. exact nested_wide_bitops. Qed.
+Print Assumptions C12_nested_wide_bitops.
 
-Theorem C12_nested_wide_bitops_refuted :
-  forallb (fun op =>
-    match run_program KUint 128 (EBin op (ECast KUint 128 (ENeg (ECast KUint 64 (ELit 5)))) (ECast KUint 128 (ELit (2 ^ 100 + 1)))),
-          run_program KUint 128 (EBin op (ECast KUint 128 (ENeg (EIn KUint 64 5))) (EIn KUint 128 (2 ^ 100 + 1))) with
-    | Ok a, Ok b => negb (a =? b)
-    | _, _ => false
-    end) [OBand; OBxor; OBclr] = true.
-Proof. exact nested_wide_bitops_refuted. Qed.
-Print Assumptions C12_nested_wide_bitops_refuted.
+(* The former F6m witnesses: uint128(-uint64(5)) << 64 (constant and run-time variant) and
+   uint128(-uint64(1)) >> 63 fold to what the circuit computes. *)
+Theorem C12_nested_wide_shift_repaired :
+  run_program KUint 128 f6m_const = Ok ((2 ^ 64 - 5) * 2 ^ 64) /\
+  run_program KUint 128 f6m_runtime = Ok ((2 ^ 64 - 5) * 2 ^ 64) /\
+  run_program KUint 128 (EBin ORsh (ECast KUint 128 (ENeg (ECast KUint 64 (ELit 1)))) (ELit 63)) = Ok 1.
+Proof. exact nested_wide_shift_repaired. Qed.
+Print Assumptions C12_nested_wide_shift_repaired.
 
 (* SCOPE NOTE (binding forms).  The theorems above are about the folder GIVEN its operand
    constants (literals, casts T(a), -T(a), x := E, helper parameters).  The other ways a
